@@ -1,6 +1,7 @@
 import Driver.FragJudge
 import Muxide.Spec.Strict
 import Muxide.Spec.Contract
+import Muxide.Spec.Av1Decode
 /- Driver.StrictJudge — C19 (header boxes follow their specifications) and C07 (codec configuration). -/
 namespace Driver
 open Muxide Muxide.Spec
@@ -52,15 +53,19 @@ def entryTag : VCodec → Bytes
     Header OBU the record itself carries in configOBUs — a constraint on the record alone (which
     stream it came from is C07's business). The chroma-sample-position of monochrome streams is left
     to C07 (known finding av1C-csp). -/
-def av1CSelfConsistent (a : Av1C) : Bool :=
+def av1CSelfConsistent (a : Av1C) : Facets :=
   match (obus a.obus).find? (·.1.obuType = 1) with
-  | none => a.obus.isEmpty
+  | none => facet a.obus.isEmpty "av1C-vs-configOBUs"
   | some (info, obu) =>
-    match parseSeqHdrBits true (bitsOf (obu.drop info.headerSize)) with
-    | none => true
-    | some (p, l, ti, cc) =>
-      a.profile = p ∧ a.level = l ∧ a.tier = ti ∧ a.highBitdepth = cc.highBitdepth ∧ a.twelveBit = cc.twelveBit ∧
-      a.mono = cc.monochrome ∧ a.subX = cc.subX ∧ a.subY = cc.subY
+    match Spec.Av1.certifiedSeqHdr (bitsOf (obu.drop info.headerSize)) with
+    | none => []
+    | some h =>
+      let (p, l, ti, cc) := h.fields
+      -- monochrome headers are a recorded deviation of the library's parser (it reads two bits of
+      -- chroma_sample_position the syntax does not contain: known finding av1C-csp); they get their own facet
+      facet (a.profile = p ∧ a.level = l ∧ a.tier = ti ∧ a.highBitdepth = cc.highBitdepth ∧ a.twelveBit = cc.twelveBit ∧
+        a.mono = cc.monochrome ∧ a.subX = cc.subX ∧ a.subY = cc.subY)
+        (if h.monochrome then "av1C-vs-configOBUs-mono" else "av1C-vs-configOBUs")
 
 def videoEntryFacets (pfx : String) (t : Track) (codecTag : Bytes) (w h : Nat) : Facets :=
   facet (t.stsd.pre == u32be 0 ++ u32be 1) (pfx ++ "stsd-header") ++
@@ -77,7 +82,7 @@ def videoEntryFacets (pfx : String) (t : Track) (codecTag : Bytes) (w h : Nat) :
         else if cfg.typ == tag "av1C" then
           (match strictAv1C cfg.pre with
            | none => [pfx ++ "av1C"]
-           | some a => facet (av1CSelfConsistent a) (pfx ++ "av1C-vs-configOBUs"))
+           | some a => (av1CSelfConsistent a).map (pfx ++ ·))
         else if cfg.typ == tag "vpcC" then facet (strictVpcC cfg.pre).isSome (pfx ++ "vpcC")
         else [pfx ++ "config-type"]
       | _ => [pfx ++ "config-count"])
@@ -192,9 +197,9 @@ def firstOfType (us : List Bytes) (ty : Bytes → Nat) (t : Nat) : Option Bytes 
 /-- the AV1 syntax reading of a sequence header payload (decoder_model_info only inside timing
     info; monochrome: chroma_sample_position = 0) -/
 def specAv1Fields (payload : Bytes) : Option (Nat × Nat × Nat × ColorCfg) :=
-  match parseSeqHdrBits true (bitsOf payload) with
-  | none => none
-  | some (p, l, t, cc) => some (p, l, t, if cc.monochrome then { cc with csp := 0 } else cc)
+  -- the certified reader of Spec.Av1Decode: a header whose re-encoding by the syntax-table encoder is a
+  -- prefix of these bits (the library's own parser is not consulted)
+  (Spec.Av1.certifiedSeqHdr (bitsOf payload)).map (·.fields)
 
 def facetsC07Video (codec : VCodec) (w h : Nat) (t : Track) (key : Bytes) : Facets :=
   match t.stsd.kids with
